@@ -1,6 +1,79 @@
 package main
 
-import "verifharness/mon"
+import (
+	"bytes"
+	"fmt"
 
-func c13Corpus(r *mon.Run)                   {}
-func c13CorpusReplay(r *mon.Run, c mon.Case) {}
+	"verifharness/a2j"
+	"verifharness/mon"
+)
+
+// C13 part 2: null-ish items injected at every list of real programs. The same program is built twice
+// from the same translator seed (the nulls knob has its own PRNG stream, so nothing else changes): the
+// renderings must be byte-identical and must re-parse to the source AST.
+
+func c13CorpusCase(r *mon.Run, ci corpusItem) {
+	name, src := ci.source()
+	c := mon.Case{Gen: "corpus", Seed: r.Seed, Extra: mon.J(ci)}
+	if len(src) == 0 {
+		return
+	}
+	plain := a2j.Build(name, src, a2j.Roots(), ci.Seed, a2j.Knobs{})
+	if plain.Skip != "" || plain.Panic != "" {
+		r.Count("corpus.skip", 1)
+		return
+	}
+	pout, perr, ppanic := plain.Render()
+	if perr != "" || ppanic != "" {
+		r.Count("corpus.plain_render_failed(C01's business)", 1)
+		return
+	}
+	inj := a2j.Build(name, src, a2j.Roots(), ci.Seed, a2j.Knobs{Nulls: true})
+	if inj.Panic != "" {
+		r.Violate("corpus-null-build-panic", c, "%s: building with null items panicked: %s", shortPath(name), mon.Trunc(inj.Panic, 800))
+		return
+	}
+	iout, ierr, ipanic := inj.Render()
+	n := inj.Tr.Stats["inject"]
+	switch {
+	case ipanic != "":
+		r.Violate("corpus-null-panic", c, "%s: rendering with %d injected null items panicked: %s", shortPath(name), n, ipanic)
+	case ierr != "":
+		r.Violate("corpus-null-error", c, "%s: rendering with %d injected null items failed: %s", shortPath(name), n, ierr)
+	case !bytes.Equal(iout, pout):
+		d := inj.Compare(iout)
+		r.Violate("corpus-null-changes-output", c, "%s: %d injected null items change the rendered code (AST comparison with the source: %q)\nfirst difference at byte %d", shortPath(name), n, d, firstDiff(iout, pout))
+		if r.Verbose {
+			fmt.Printf("--- with nulls ---\n%s\n--- without ---\n%s\n", iout, pout)
+		}
+	}
+	r.Eval("corpus|"+name+fmt.Sprint(ci.Seed), n > 0)
+	r.Count("corpus.files", 1)
+	r.Count("corpus.null_items_injected", int64(n))
+	for k, v := range inj.Tr.Stats {
+		if len(k) > 5 && k[:5] == "list." {
+			r.Count("corpus.lists."+k[5:], int64(v))
+		}
+	}
+}
+
+func firstDiff(a, b []byte) int {
+	for i := 0; i < len(a) && i < len(b); i++ {
+		if a[i] != b[i] {
+			return i
+		}
+	}
+	return min(len(a), len(b))
+}
+
+func c13Corpus(r *mon.Run) {
+	items := corpusList(r, "C13", 900, 200, 3000, 1)
+	mon.Parallel(len(items), func(i int) { c13CorpusCase(r, items[i]) })
+}
+
+func c13CorpusReplay(r *mon.Run, c mon.Case) {
+	var ci corpusItem
+	if err := jsonUnmarshal(c.Extra, &ci); err == nil {
+		c13CorpusCase(r, ci)
+	}
+}
